@@ -4,6 +4,7 @@ pub mod c06;
 pub mod c09;
 pub mod c10;
 pub mod lines;
+pub mod lists;
 pub mod clean;
 pub mod tok;
 
@@ -17,6 +18,9 @@ pub fn run(ctx: &mut Ctx) -> bool {
         "C07" => tok::check(ctx, "C07"),
         "C08" => tok::check(ctx, "C08"),
         "C10" => c10::check(ctx),
+        "C15" => lists::check(ctx, "C15"),
+        "C16" => lists::check(ctx, "C16"),
+        "C17" => lists::check(ctx, "C17"),
         "C11" => lines::check(ctx, "C11"),
         "C12" => lines::check(ctx, "C12"),
         "C13" => lines::check(ctx, "C13"),
@@ -37,6 +41,7 @@ pub fn replay(property: &str, sub: &str, case: &Value, obs: &mut Obs) -> Result<
     match property {
         "C07" | "C08" => tok::replay(property, sub, case, obs),
         "C10" => c10::replay(sub, case, obs),
+        "C15" | "C16" | "C17" => lists::replay(property, sub, case, obs),
         "C11" | "C12" | "C13" => lines::replay(property, sub, case, obs),
         "C09" => c09::replay(sub, case, obs),
         "C06" => c06::replay(sub, case, obs),
